@@ -93,7 +93,10 @@ Idle(w) == cur[w] = 0 /\ cb[w].k = "none"
 SetPc(t, p) == [th EXCEPT ![t].pc = p]
 \* nested protocol: run 'callee' now, continue at 'cont' when it returns
 CallPc(t, callee, cont) == [th EXCEPT ![t].pc = callee, ![t].rs = <<cont>> \o @]
-RetPc(t) == [th EXCEPT ![t].pc = Head(th[t].rs), ![t].rs = Tail(@)]
+\* (a frame "fm1" is the rest of felock_mark_and_signal: after the signal, unlock the mutex)
+RetPc(t) == LET r == Head(th[t].rs) IN
+            IF r.k = "fm1" THEN [th EXCEPT ![t].pc = P("mu0", r.z, 0, 0), ![t].rs = <<[r EXCEPT !.k = "fm9"]>> \o Tail(@)]
+            ELSE [th EXCEPT ![t].pc = r, ![t].rs = Tail(@)]
 
 cur0 == [w \in W |-> 0]
 got0 == [w \in W |-> 0]
@@ -607,7 +610,8 @@ Block(w, t, q, m) ==
         /\ th' = [th EXCEPT ![t].pc = P5("blk0", q, 0, 0, 8), ![t].rs = <<P("ml0", pc.x, 0, 0)>> \o @]
         /\ gh' = GhSet("qmx", pc.x, q)
      \/ /\ pc.k = "cw1" /\ m = pc.y /\ q = pc.z     \* cond wait: release m in the callback, re-lock when woken
-        /\ th' = [th EXCEPT ![t].pc = P5("blk0", q, m, 0, 8), ![t].rs = <<P("ml0", m, 0, 0), P("cw9", pc.x, m, 0)>> \o @]
+        /\ th' = [th EXCEPT ![t].pc = P5("blk0", q, m, 0, 8),
+                            ![t].rs = (IF pc.v = 0 THEN <<P("ml0", m, 0, 0), P("cw9", pc.x, m, 0)>> ELSE <<P("ml0", m, 0, 0)>>) \o @]
         /\ gh' = gh
      \/ /\ pc.k = "br4" /\ m = 0 /\ QOk("qbr", pc.x, q)  \* barrier: sleep stack
         /\ th' = [th EXCEPT ![t].pc = P5("blk0", q, 0, 0, 9), ![t].rs = <<P("br9", pc.x, 0, 0)>> \o @]
@@ -748,7 +752,7 @@ UCondWaitCall(w, tag, c, m) ==
   /\ UNCHANGED <<cur, got, cb, runq, ledger, tg, bad, mx, sq, ob>>
 CvWait(w, c, q, m) ==
   /\ \E t \in D : At(w, t, "cw0") /\ th[t].pc.x = c /\ th[t].pc.y = m
-        /\ th' = SetPc(t, P("cw1", c, m, q))
+        /\ th' = SetPc(t, P5("cw1", c, m, q, th[t].pc.v))
   /\ QOk("qcv", c, q) /\ gh' = GhSet("qcv", c, q)
   /\ UNCHANGED <<cur, got, cb, runq, ledger, tg, bad, mx, sq, ob>>
 \* a woken waiter returns holding the mutex
@@ -763,7 +767,8 @@ UCondSignalCall(w, tag, c, bc) ==
   /\ UNCHANGED <<cur, got, cb, runq, ledger, tg, bad, sv>>
 CvSignal(w, c, q, bc) ==
   /\ \E t \in D : At(w, t, "cs0") /\ th[t].pc.x = c /\ th[t].pc.y = bc
-        /\ th' = CallPc(t, P("cs1", q, bc, 0), P("cs9", c, bc, 0))
+        /\ th' = IF th[t].pc.v = 0 THEN CallPc(t, P("cs1", q, bc, 0), P("cs9", c, bc, 0))
+                 ELSE SetPc(t, P("cs1", q, bc, 0))      \* called from felock: the continuation is already on the stack
   /\ QOk("qcv", c, q) /\ gh' = GhSet("qcv", c, q)
   /\ UNCHANGED <<cur, got, cb, runq, ledger, tg, bad, mx, sq, ob>>
 UCondSignalRet(w, tag, c) ==
@@ -935,6 +940,43 @@ UOnceRet(w, tag, o) ==
   /\ \E t \in D : At(w, t, "on9") /\ th[t].tag = tag /\ th[t].pc.x = o /\ th' = SetPc(t, User)
   /\ bad' = IF gh.ondone[o] # 1 THEN Fail("C14: once returned before the init routine completed") ELSE bad
   /\ UNCHANGED <<cur, got, cb, runq, ledger, tg, sv>>
+
+\* ------------------------------------------------------------------ felock
+\* a full/empty lock is a mutex m, a status word and one condition variable per status value;
+\* the events of its mutex and conditions are the ordinary ones
+UFeWaitLockCall(w, tag, f, s, m, c) ==
+  /\ \E t \in D : At(w, t, "user") /\ th[t].tag = tag
+        /\ th' = CallPc(t, P("ml0", m, 0, 0), P5("fw1", f, s, m, c))
+  /\ UNCHANGED <<cur, got, cb, runq, ledger, tg, bad, sv>>
+\* with the mutex held: look at the status; wait on the condition of the wanted status if it differs
+FeChk(w, f, st, want) ==
+  /\ st = ob.fe[f]
+  /\ \E t \in D : At(w, t, "fw1") /\ th[t].pc.x = f /\ th[t].pc.y = want
+        /\ th' = IF st = want THEN SetPc(t, [th[t].pc EXCEPT !.k = "fw9"])
+                 ELSE CallPc(t, P5("cw0", th[t].pc.v, th[t].pc.z, 0, 1), th[t].pc)
+  /\ UNCHANGED <<cur, got, cb, runq, ledger, tg, bad, sv>>
+\* C09: returns only when the status is the wanted one, with the lock held exclusively
+UFeWaitLockRet(w, tag, f, s) ==
+  /\ \E t \in D : At(w, t, "fw9") /\ th[t].tag = tag /\ th[t].pc.x = f /\ th[t].pc.y = s
+        /\ th' = SetPc(t, User)
+        /\ gh' = GhSet("mown", th[t].pc.z, t)
+        /\ bad' = IF gh.mown[th[t].pc.z] # 0 THEN Fail("C09: wait_and_lock returned while another thread holds the lock")
+                  ELSE IF ob.fe[f] # s THEN Fail("C09: wait_and_lock returned with a different status") ELSE bad
+  /\ UNCHANGED <<cur, got, cb, runq, ledger, tg, mx, sq, ob>>
+UFeMarkCall(w, tag, f, s, m, c) ==
+  /\ \E t \in D : At(w, t, "user") /\ th[t].tag = tag /\ gh.mown[m] = t
+        /\ th' = SetPc(t, P5("fm0", f, s, m, c))
+  /\ gh' = GhSet("mown", m, 0)
+  /\ UNCHANGED <<cur, got, cb, runq, ledger, tg, bad, mx, sq, ob>>
+\* publish the status, then signal the condition of that status, then unlock
+FeMark(w, f, s) ==
+  /\ \E t \in D : At(w, t, "fm0") /\ th[t].pc.x = f /\ th[t].pc.y = s
+        /\ th' = CallPc(t, P5("cs0", th[t].pc.v, 0, 0, 1), [th[t].pc EXCEPT !.k = "fm1"])
+  /\ ob' = ObSet("fe", f, s)
+  /\ UNCHANGED <<cur, got, cb, runq, ledger, tg, bad, mx, sq, gh>>
+UFeMarkRet(w, tag, f, s) ==
+  /\ \E t \in D : At(w, t, "fm9") /\ th[t].tag = tag /\ th[t].pc.x = f /\ th[t].pc.y = s /\ th' = SetPc(t, User)
+  /\ UNCHANGED <<cur, got, cb, runq, ledger, tg, bad, sv>>
 
 \* ============================================================== properties
 OK == bad = "ok"
